@@ -42,15 +42,15 @@ def parent_init(tier, seed):
 
 def plan(tier, seed):
     specs = []
-    reps = 1 if tier == 'quick' else 6
+    reps = 2 if tier == 'quick' else 20
     for cls in VERDICT_CLASSES + ('invalid-syntax',):
         for ti, text in enumerate(progs.FAULTS[cls]):
             for depth in (0, 1, 2):
                 for where in ('first', 'middle', 'last'):
                     for rep in range(reps):
                         specs.append({'k': 'e', 'cls': cls, 'ti': ti, 'depth': depth, 'where': where, 'rep': rep})
-    specs.extend({'k': 'r'} for _ in range(1500 if tier == 'quick' else 200000))
-    specs.extend({'k': 'env'} for _ in range(200 if tier == 'quick' else 10000))
+    specs.extend({'k': 'r'} for _ in range(3000 if tier == 'quick' else 1000000))
+    specs.extend({'k': 'env'} for _ in range(300 if tier == 'quick' else 30000))
     return specs
 
 
